@@ -470,4 +470,76 @@ theorem settled_exactly_once_at_close (c m : Nat) (pre post : List Op) (exc : Bo
 
 example : 1 ∈ pending (run stdR (init 4 100) [.readBytes 5 false, .wmode .block, .write 3, .connect]).1 := by decide
 
+/-! ### later reads are served from the data that was already buffered (added after the missed seeded change C13-1) -/
+
+/-- a registered read whose request the buffered bytes satisfy is completed by `_try_inline_read` with exactly the
+    prescribed data — nothing here looks at `closed` or at `stream.error` -/
+theorem tryInline_gets_buffered (s : St) (f : Nat) (q : Req) (o : Outcome) (hf : s.rfut = some f) (hq : ReqIs s q)
+    (hru : s.ruc = false) (hx : Spec.expected R q s.buf = some o) :
+    (tryInlineRead R s).2 = none ∧ (tryInlineRead R s).1.out = s.out ++ [Ev.settle f o] ∧
+    (tryInlineRead R s).1.rfut = none := by
+  have key := satisfiable_read_gets_data R s f q hf hq
+  rw [hx] at key
+  simp only [completeAtClose, hru, hf, Option.isSome_some, Bool.false_eq_true, if_false, if_true] at key
+  unfold tryInlineRead
+  cases hp : findReadPos R s with
+  | none => rw [hp] at key; simp at key
+  | some p =>
+    cases p with
+    | none => rw [hp] at key; simp at key
+    | some p => rw [hp] at key; exact ⟨rfl, key.1, key.2⟩
+
+/-- the three read methods whose request is a plain value (`read_into` and `read_until_close` have their own paths) -/
+def simpleReq : Op → Option Req
+  | .readBytes n part => some (.bytes n part)
+  | .readUntil d max => some (.until d max)
+  | .readRegex rid max => some (.regex rid max)
+  | _ => none
+
+/-- **later_read_gets_buffered**: a read issued on an idle stream — open, or closed for ANY cause (`stream.error`
+    is arbitrary: plain close, EOF, reset, OSError, failed write, `close(exc_info)`, Unsatisfiable) — that the bytes
+    in the buffer satisfy (`Spec.expected` = some data) returns a future that is completed in the same step with
+    exactly that data.  Together with `closed_step` (a closed stream's buffer only shrinks by what reads return):
+    data buffered when the stream closed stays readable. -/
+theorem later_read_gets_buffered (s : St) (i : Inv s) (op : Op) (q : Req) (o : Outcome) (hidle : s.rfut = none)
+    (hq : simpleReq op = some q) (hx : Spec.expected R q s.buf = some o) :
+    (step R s op).2.ret = .fut s.nextId ∧ (step R s op).2.evs = [Ev.settle s.nextId o] := by
+  obtain ⟨hb, hd, hr, hu⟩ := i.idle hidle
+  have hruc := not_ruc_of_idle s i hidle
+  have fin : ∀ (s' : St) (c : Bool), s'.rfut = some s.nextId → ReqIs s' q → s'.ruc = false → s'.out = [] →
+      s'.buf = s.buf → (finishInline R c s' s.nextId).2 = .fut s.nextId ∧
+        (finishInline R c s' s.nextId).1.out = [Ev.settle s.nextId o] := by
+    intro s' c h1 h2 h3 h4 h5
+    have := tryInline_gets_buffered R s' s.nextId q o h1 h2 h3 (by rw [h5]; exact hx)
+    unfold finishInline
+    generalize tryInlineRead R s' = x at this
+    obtain ⟨s2, r⟩ := x
+    obtain ⟨a, b, _⟩ := this
+    simp only [] at a b
+    subst a
+    simp [b, h4]
+  cases op with
+  | readBytes n part =>
+    simp only [simpleReq, Option.some.injEq] at hq; subst hq
+    simp only [step, doStep, startRead, hidle]
+    exact fin _ false rfl ⟨hruc, hu, rfl, rfl, hd, hr⟩ hruc rfl rfl
+  | readUntil d max =>
+    simp only [simpleReq, Option.some.injEq] at hq; subst hq
+    simp only [step, doStep, startRead, hidle]
+    exact fin _ true rfl ⟨hruc, hu, hb, rfl, rfl⟩ hruc rfl rfl
+  | readRegex rid max =>
+    simp only [simpleReq, Option.some.injEq] at hq; subst hq
+    simp only [step, doStep, startRead, hidle]
+    exact fin _ true rfl ⟨hruc, hu, hb, hd, rfl, rfl⟩ hruc rfl rfl
+  | _ => simp [simpleReq] at hq
+
+-- non-vacuity (the scenario of the seeded change): 11 bytes arrive, 5 are consumed, the peer resets the connection
+-- while a read that the 6 buffered bytes cannot satisfy is pending; that read fails with the real error, and the
+-- 6 bytes are still served afterwards
+example : (run stdR (init 65536 104857600)
+    [.feed [104, 101, 108, 108, 111, 32, 119, 111, 114, 108, 100], .readBytes 5 false, .readBytes 100 false, .rerr .reset,
+     .readBytes 6 false]).2.map (·.evs) =
+    [[], [.settle 0 (.bytes [104, 101, 108, 108, 111])], [], [.settle 1 (.closedErr .reset)],
+     [.settle 2 (.bytes [32, 119, 111, 114, 108, 100])]] := by decide
+
 end TornadoModel.C13
